@@ -1,34 +1,45 @@
 """stretch2lean — regenerate lean/QuantemModel/Generated/Stretch.lean from the *Stretch
 dataclasses of quantem/core/visualization/custom_normalizations.py (property C20).
 
-What is translated (Python `ast` -> Lean, written once over `[Num R]` of Core/Num.lean):
+The tie is SEMANTIC: the classes are not pattern-matched, they are EXECUTED on symbolic values.
 
-* the dataclass fields and their default expressions          -> `structure` + `default`
-* `__post_init__` guards `if <cmp>: raise ValueError(...)`    -> `valid : Bool`
-* `__call__`: the in-place pipeline
-      values = np.array(values, copy=copy)                    (no-op on values)
-      np.<ufunc>(values, <expr>, out=values)                  -> `let values := values <op> <expr>`
-      np.<ufunc>(values, out=values)                          -> `let values := f values`
-      np.clip(values, lo, hi, out=values)                     -> `let values := Num.clip values lo hi`
-      if <test>: return values                                -> `if <test> then values else …`
-      if <test>: <in-place steps>                             -> `let values := if <test> then … else values`
-      return values
-  read as function composition on ONE element (ufuncs are element-wise); a ufunc call without
-  `out=values` is translated as what it is: a no-op on `values`.
-* the `inverse` property `return <OtherStretch>(<expr>, …)`    -> `inverse : Self R → Other R`
+* the module source of `$QVERIF_REPO/src` is loaded as a private module object (the imported
+  `quantem` of the harness is not touched);
+* one element of the array argument is the symbol `values`, the dataclass fields are the symbols
+  `self.<field>`; both are objects (`TNum`, `TArr`) whose operators, in-place operators, ndarray-style
+  methods and NumPy protocols (`__array_ufunc__`, `__array_function__`; `np.array/asarray/…` through a
+  thin proxy of the module's `np` global) build an expression tree.  So every spelling that reaches
+  the same arithmetic — `np.multiply(v, c, out=v)`, `v *= c`, `v = v * c`, `np.divide`/`np.true_divide`,
+  `v.clip(0, 1, out=v)`, temporaries, renamed locals, private helper functions, commuted products —
+  gives the same tree;
+* a branch on a comparison of PARAMETERS (`if self.power == 1.0`) is explored: the function is run
+  again under each outcome (an atom decided once on a path keeps its outcome), the paths are merged
+  into a decision tree (identical sub-trees collapse);
+* commutative operands are sorted, nothing is re-associated (the Lean text is run at Float against
+  the real code, exact equality on the linear path);
+* per class are traced: construction (`valid`: does `cls(params)` raise ValueError), `__call__`
+  (`call`), the `inverse` attribute (`inverse`: class + fields of the object it returns; the paths on
+  which building it raises ValueError must be exactly those the target's own validation rejects),
+  and the defaults (`cls()`).
 
-Expression grammar: int/float literals, `self.<field>`, unary `-`, binary `+ - * /`,
-`np.log/exp/sinh/arcsinh/sqrt(<expr>)`, comparisons `== != < <= > >=`, `and`/`or`/`not`.
-Anything else raises `TranslationError` (the runner records it as "tie broken").
+What the tracer cannot follow raises `TranslationError` (the runner records "tie broken", the old
+file stays): a branch / comparison on the traced ELEMENT, conversion of a traced value to a Python
+number (`float()`, `math.*`), an unknown ufunc / NumPy function / ndarray method, dtype changes,
+indexing, more than 64 paths, an exception other than ValueError, a `call` path that raises.
 
-The source is read from `$QVERIF_REPO/src` (default /repo/src).  Output is deterministic: the
-same source text gives a byte-identical file.
+Output is deterministic: the same behaviour gives a byte-identical file.
 """
 from __future__ import annotations
 
-import ast
+import dataclasses
+import importlib.util
+import math
+import numbers
 import os
+import sys
 from fractions import Fraction
+
+import numpy as _np
 
 REL_SOURCE = "quantem/core/visualization/custom_normalizations.py"
 HERE = os.path.dirname(os.path.abspath(__file__))
@@ -45,14 +56,16 @@ EXPECTED = {
     "HyperbolicSineStretch": ["a"],
 }
 
-BIN_UFUNC = {"multiply": "*", "add": "+", "subtract": "-", "true_divide": "/", "divide": "/"}
-UN_FUNC = {"log": "Num.log", "exp": "Num.exp", "sinh": "Num.sinh", "arcsinh": "Num.asinh", "sqrt": "Num.sqrt"}
-CMP = {ast.Eq: "feq", ast.NotEq: "fne", ast.Lt: "Num.ltb", ast.LtE: "Num.leb"}
-CMP_SWAP = {ast.Gt: "Num.ltb", ast.GtE: "Num.leb"}
+MAX_PATHS = 64
+MAX_DEPTH = 24
 
 
 class TranslationError(Exception):
     pass
+
+
+class TraceUnsupported(TranslationError):
+    """a construct the tracer cannot follow"""
 
 
 def source_path() -> str:
@@ -60,216 +73,819 @@ def source_path() -> str:
     return os.path.join(root, "src", REL_SOURCE)
 
 
-def _where(node) -> str:
-    return f"line {getattr(node, 'lineno', '?')}"
+# ---------------------------------------------------------------------------------------
+# expression trees (plain tuples)
+#   ("x",)  ("p", field)  ("c", Fraction)
+#   ("add", a, b) ("mul", a, b) ("min", a, b) ("max", a, b)      operands sorted
+#   ("sub", a, b) ("div", a, b) ("pow", a, b) ("neg", a) ("fn", name, a) ("clip", a, lo, hi)
+# atoms of conditions: ("feq", a, b) sorted, ("le", a, b), ("lt", a, b)
+
+COMMUTATIVE = ("add", "mul", "min", "max")
+FN_LEAN = {"log": "Num.log", "exp": "Num.exp", "sinh": "Num.sinh", "asinh": "Num.asinh", "sqrt": "Num.sqrt", "abs": "Num.abs"}
+BIN_LEAN = {"add": "+", "sub": "-", "mul": "*", "div": "/"}
 
 
-def _rat(value) -> str:
-    """Python numeric literal -> exact rational literal (decimal reading of its repr: 0.1 -> 1/10,
-    so that `Num.ofRat` at Float rounds to the very same double)."""
-    if isinstance(value, bool) or not isinstance(value, (int, float)):
-        raise TranslationError(f"unsupported literal {value!r}")
-    if isinstance(value, float) and (value != value or value in (float("inf"), float("-inf"))):
-        raise TranslationError("non-finite literal")
-    q = Fraction(repr(value)) if isinstance(value, float) else Fraction(value)
-    if q.numerator >= 2 ** 53 or q.denominator >= 2 ** 53:
-        raise TranslationError(f"literal {value!r} not exactly convertible")
+def _const(v):
+    if isinstance(v, (bool, _np.bool_)):
+        raise TraceUnsupported("a bool used as a number")
+    if isinstance(v, (int, _np.integer)):
+        return ("c", Fraction(int(v)))
+    if isinstance(v, (float, _np.floating)):
+        v = float(v)
+        if v != v or v in (math.inf, -math.inf):
+            raise TraceUnsupported("non-finite constant")
+        q = Fraction(repr(v))                      # decimal reading: 0.1 -> 1/10 (Num.ofRat at Float rounds to the same double)
+        if q.numerator.bit_length() > 53 or q.denominator.bit_length() > 53:
+            q = Fraction(v)                        # exact binary value
+            if q.denominator.bit_length() > 1000:
+                raise TraceUnsupported(f"constant {v!r} not exactly convertible")
+        return ("c", q)
+    raise TraceUnsupported(f"unsupported operand of type {type(v).__name__}")
+
+
+def _depends_x(e) -> bool:
+    return e[0] == "x" or any(isinstance(s, tuple) and _depends_x(s) for s in e[1:])
+
+
+def _has_param(e) -> bool:
+    return e[0] == "p" or any(isinstance(s, tuple) and _has_param(s) for s in e[1:])
+
+
+def _key(e):
+    """deterministic order of commutative operands: element-dependent, then parameters, then constants"""
+    rank = 0 if _depends_x(e) else (1 if _has_param(e) else 2)
+    return (rank, _show(e))
+
+
+def _show(e) -> str:
+    k = e[0]
+    if k == "x":
+        return "values"
+    if k == "p":
+        return f"self.{e[1]}"
+    if k == "c":
+        return _rat(e[1])
+    if k in BIN_LEAN:
+        return f"({_show(e[1])} {BIN_LEAN[k]} {_show(e[2])})"
+    if k == "neg":
+        return f"(-{_show(e[1])})"
+    if k == "pow":
+        return f"(Num.rpow {_show(e[1])} {_show(e[2])})"
+    if k == "fn":
+        return f"({FN_LEAN[e[1]]} {_show(e[2])})"
+    if k == "clip":
+        return f"(Num.clip {_show(e[1])} {_show(e[2])} {_show(e[3])})"
+    if k in ("min", "max"):
+        return f"(Num.{k} {_show(e[1])} {_show(e[2])})"
+    if k == "feq":
+        return f"(feq {_show(e[1])} {_show(e[2])})"
+    if k == "le":
+        return f"(Num.leb {_show(e[1])} {_show(e[2])})"
+    if k == "lt":
+        return f"(Num.ltb {_show(e[1])} {_show(e[2])})"
+    raise TranslationError(f"internal: unknown node {k}")
+
+
+def _rat(q: Fraction) -> str:
     if q.denominator == 1:
         return f"(Num.ofRat {q.numerator})" if q >= 0 else f"(Num.ofRat ({q.numerator}))"
     return f"(Num.ofRat ({q.numerator} / {q.denominator}))" if q >= 0 else f"(Num.ofRat (({q.numerator}) / {q.denominator}))"
 
 
-def _is_np(node, names=None):
-    """`np.<name>` attribute -> name (or None)"""
-    if isinstance(node, ast.Attribute) and isinstance(node.value, ast.Name) and node.value.id in ("np", "numpy"):
-        if names is None or node.attr in names:
-            return node.attr
-    return None
+def _mk(op, *args):
+    if op in COMMUTATIVE:
+        args = tuple(sorted(args, key=_key))
+    return (op,) + tuple(args)
 
 
-class ClassTranslator:
-    def __init__(self, cls: ast.ClassDef):
-        self.cls = cls
-        self.name = cls.name
-        self.fields: list[tuple[str, ast.expr]] = []
-        self.methods: dict[str, ast.FunctionDef] = {}
-        for st in cls.body:
-            if isinstance(st, ast.AnnAssign) and isinstance(st.target, ast.Name):
-                if st.value is None:
-                    raise TranslationError(f"{self.name}.{st.target.id}: field without default ({_where(st)})")
-                self.fields.append((st.target.id, st.value))
-            elif isinstance(st, ast.FunctionDef):
-                self.methods[st.name] = st
-            elif isinstance(st, ast.Expr) and isinstance(st.value, ast.Constant) and isinstance(st.value.value, str):
-                continue  # docstring
-            else:
-                raise TranslationError(f"{self.name}: unsupported class-level statement ({_where(st)})")
-        self.field_names = [f for f, _ in self.fields]
+def _subst(e, env):
+    """replace ("p", f) by env[f]"""
+    if e[0] == "p":
+        return env[e[1]]
+    if e[0] in ("x", "c"):
+        return e
+    parts = [(_subst(s, env) if isinstance(s, tuple) else s) for s in e[1:]]
+    if e[0] in COMMUTATIVE or e[0] == "feq":
+        parts = sorted(parts, key=_key)
+    return (e[0],) + tuple(parts)
 
-    # ---- expressions ----------------------------------------------------------------
-    def expr(self, e, allow_self=True) -> str:
-        if isinstance(e, ast.Constant):
-            return _rat(e.value)
-        if isinstance(e, ast.Attribute) and isinstance(e.value, ast.Name) and e.value.id == "self":
-            if not allow_self or e.attr not in self.field_names:
-                raise TranslationError(f"{self.name}: unknown attribute self.{e.attr} ({_where(e)})")
-            return f"self.{e.attr}"
-        if isinstance(e, ast.UnaryOp) and isinstance(e.op, ast.USub):
-            return f"(-{self.expr(e.operand, allow_self)})"
-        if isinstance(e, ast.UnaryOp) and isinstance(e.op, ast.UAdd):
-            return self.expr(e.operand, allow_self)
-        if isinstance(e, ast.BinOp):
-            op = {ast.Add: "+", ast.Sub: "-", ast.Mult: "*", ast.Div: "/"}.get(type(e.op))
-            if op is None:
-                raise TranslationError(f"{self.name}: unsupported operator {type(e.op).__name__} ({_where(e)})")
-            return f"({self.expr(e.left, allow_self)} {op} {self.expr(e.right, allow_self)})"
-        if isinstance(e, ast.Call) and not e.keywords and len(e.args) == 1:
-            fn = _is_np(e.func, UN_FUNC)
-            if fn:
-                return f"({UN_FUNC[fn]} {self.expr(e.args[0], allow_self)})"
-        raise TranslationError(f"{self.name}: unsupported expression `{ast.unparse(e)}` ({_where(e)})")
 
-    def test(self, t) -> str:
-        if isinstance(t, ast.BoolOp):
-            op = " && " if isinstance(t.op, ast.And) else " || "
-            return "(" + op.join(self.test(v) for v in t.values) + ")"
-        if isinstance(t, ast.UnaryOp) and isinstance(t.op, ast.Not):
-            return f"(!{self.test(t.operand)})"
-        if isinstance(t, ast.Compare) and len(t.ops) == 1:
-            a, b = self.expr(t.left), self.expr(t.comparators[0])
-            k = type(t.ops[0])
-            if k in CMP:
-                return f"({CMP[k]} {a} {b})"
-            if k in CMP_SWAP:
-                return f"({CMP_SWAP[k]} {b} {a})"
-        raise TranslationError(f"{self.name}: unsupported test `{ast.unparse(t)}` ({_where(t)})")
+# ---------------------------------------------------------------------------------------
+# path exploration
 
-    # ---- __call__ -------------------------------------------------------------------
-    def step(self, st) -> str | None:
-        """one in-place statement -> Lean expression for the new `values` (None = no-op)"""
-        if isinstance(st, ast.Assign) and len(st.targets) == 1 and isinstance(st.targets[0], ast.Name) \
-                and st.targets[0].id == "values" and isinstance(st.value, ast.Call) \
-                and _is_np(st.value.func, ("array", "asarray", "asanyarray")) \
-                and len(st.value.args) == 1 and isinstance(st.value.args[0], ast.Name) and st.value.args[0].id == "values":
-            return None  # values = np.array(values, copy=copy): same numbers
-        if isinstance(st, ast.Expr) and isinstance(st.value, ast.Call):
-            c = st.value
-            fn = _is_np(c.func)
-            if fn is None:
-                raise TranslationError(f"{self.name}.__call__: unsupported call `{ast.unparse(c)}` ({_where(st)})")
-            kw = {k.arg: k.value for k in c.keywords}
-            if set(kw) - {"out"}:
-                raise TranslationError(f"{self.name}.__call__: unsupported keyword in `{ast.unparse(c)}` ({_where(st)})")
-            if not c.args or not (isinstance(c.args[0], ast.Name) and c.args[0].id == "values"):
-                raise TranslationError(f"{self.name}.__call__: first ufunc operand must be `values` ({_where(st)})")
-            rest = [self.expr(a) for a in c.args[1:]]
-            if fn in BIN_UFUNC and len(rest) == 1:
-                new = f"values {BIN_UFUNC[fn]} {rest[0]}"
-            elif fn == "power" and len(rest) == 1:
-                new = f"Num.rpow values {rest[0]}"
-            elif fn == "clip" and len(rest) == 2:
-                new = f"Num.clip values {rest[0]} {rest[1]}"
-            elif fn in UN_FUNC and not rest:
-                new = f"{UN_FUNC[fn]} values"
-            else:
-                raise TranslationError(f"{self.name}.__call__: unsupported ufunc `{ast.unparse(c)}` ({_where(st)})")
-            if "out" not in kw:
-                return None  # result discarded: `values` unchanged (translated as written)
-            if not (isinstance(kw["out"], ast.Name) and kw["out"].id == "values"):
-                raise TranslationError(f"{self.name}.__call__: out= must be `values` ({_where(st)})")
-            return new
-        raise TranslationError(f"{self.name}.__call__: unsupported statement `{ast.unparse(st)}` ({_where(st)})")
+class _Ctx:
+    def __init__(self, prefix):
+        self.prefix = prefix
+        self.path = []
+        self.known = {}
 
-    def call_body(self) -> list[str]:
-        fn = self.methods.get("__call__")
-        if fn is None:
-            raise TranslationError(f"{self.name}: no __call__")
-        argn = [a.arg for a in fn.args.args]
-        if argn[:2] != ["self", "values"]:
-            raise TranslationError(f"{self.name}.__call__: unexpected signature {argn}")
-        lines: list[str] = []
-        body = list(fn.body)
-        if body and isinstance(body[0], ast.Expr) and isinstance(body[0].value, ast.Constant) and isinstance(body[0].value.value, str):
-            body = body[1:]
-        if not body or not (isinstance(body[-1], ast.Return) and isinstance(body[-1].value, ast.Name) and body[-1].value.id == "values"):
-            raise TranslationError(f"{self.name}.__call__: must end with `return values`")
-        for st in body[:-1]:
-            if isinstance(st, ast.If):
-                if st.orelse:
-                    raise TranslationError(f"{self.name}.__call__: else-branch not supported ({_where(st)})")
-                cond = self.test(st.test)
-                if len(st.body) == 1 and isinstance(st.body[0], ast.Return):
-                    r = st.body[0].value
-                    if not (isinstance(r, ast.Name) and r.id == "values"):
-                        raise TranslationError(f"{self.name}.__call__: early return must return `values` ({_where(st)})")
-                    lines.append(f"if {cond} then values else")
-                    continue
-                inner = [self.step(s) for s in st.body]
-                inner = [s for s in inner if s is not None]
-                if not inner:
-                    continue
-                chain = "".join(f"let values := {s}; " for s in inner) + "values"
-                lines.append(f"let values := if {cond} then ({chain}) else values")
-            else:
-                s = self.step(st)
-                if s is not None:
-                    lines.append(f"let values := {s}")
-        lines.append("values")
-        return lines
+    def decide(self, atom) -> bool:
+        if atom in self.known:
+            return self.known[atom]
+        i = len(self.path)
+        if i < len(self.prefix):
+            if self.prefix[i][0] != atom:
+                raise TraceUnsupported("the code does not ask the same questions when it is run again (non-deterministic trace)")
+            out = self.prefix[i][1]
+        else:
+            out = True
+        if i >= MAX_DEPTH:
+            raise TraceUnsupported(f"more than {MAX_DEPTH} parameter decisions on one path (loop on a traced condition?)")
+        self.path.append((atom, out))
+        self.known[atom] = out
+        return out
 
-    # ---- __post_init__ --------------------------------------------------------------
-    def valid(self) -> str:
-        fn = self.methods.get("__post_init__")
-        if fn is None:
-            return "true"
-        conds = []
-        for st in fn.body:
-            if isinstance(st, ast.Expr) and isinstance(st.value, ast.Constant):
-                continue
-            ok = (isinstance(st, ast.If) and not st.orelse and len(st.body) == 1 and isinstance(st.body[0], ast.Raise)
-                  and isinstance(st.body[0].exc, ast.Call) and isinstance(st.body[0].exc.func, ast.Name)
-                  and st.body[0].exc.func.id == "ValueError")
-            if not ok:
-                raise TranslationError(f"{self.name}.__post_init__: unsupported statement ({_where(st)})")
-            conds.append(f"(!{self.test(st.test)})")
-        return " && ".join(conds) if conds else "true"
 
-    # ---- inverse --------------------------------------------------------------------
-    def inverse(self, classes: dict[str, "ClassTranslator"]) -> tuple[str, list[tuple[str, str]]]:
-        fn = self.methods.get("inverse")
-        if fn is None:
-            raise TranslationError(f"{self.name}: no inverse")
-        if not any(isinstance(d, ast.Name) and d.id == "property" for d in fn.decorator_list):
-            raise TranslationError(f"{self.name}.inverse: expected a property")
-        body = [s for s in fn.body if not (isinstance(s, ast.Expr) and isinstance(s.value, ast.Constant))]
-        if len(body) != 1 or not isinstance(body[0], ast.Return) or not isinstance(body[0].value, ast.Call) \
-                or not isinstance(body[0].value.func, ast.Name):
-            raise TranslationError(f"{self.name}.inverse: expected `return <Stretch>(…)`")
-        call = body[0].value
-        target = call.func.id
-        if target not in classes:
-            raise TranslationError(f"{self.name}.inverse: unknown class {target}")
-        tfields = classes[target].fields
-        if len(call.args) > len(tfields):
-            raise TranslationError(f"{self.name}.inverse: too many arguments")
-        vals: dict[str, str] = {}
-        for (fname, _), a in zip(tfields, call.args):
-            vals[fname] = self.expr(a)
-        for k in call.keywords:
-            if k.arg not in [f for f, _ in tfields] or k.arg in vals:
-                raise TranslationError(f"{self.name}.inverse: bad keyword {k.arg}")
-            vals[k.arg] = self.expr(k.value)
-        out = []
-        for fname, dflt in tfields:
-            out.append((fname, vals[fname] if fname in vals else classes[target].expr(dflt, allow_self=False)))
-        return target, out
+_CUR: list = []
+
+
+def _decide(atom) -> bool:
+    if not _CUR:
+        raise TraceUnsupported("truth value of a traced comparison requested outside a trace")
+    return _CUR[-1].decide(atom)
+
+
+def explore(run):
+    """run `run()` under every outcome of the parameter comparisons it makes; returns a decision tree
+    ("leaf", value) | ("if", atom, tree_true, tree_false).  An exception of the traced code becomes
+    the leaf ("raise", type name)."""
+    results = []
+    stack = [[]]
+    while stack:
+        prefix = stack.pop()
+        ctx = _Ctx(prefix)
+        _CUR.append(ctx)
+        try:
+            try:
+                leaf = ("value", run())
+            except TranslationError:
+                raise
+            except RecursionError:
+                raise TraceUnsupported("recursion limit reached while tracing")
+            except Exception as e:  # the traced code raised: a behaviour of this path
+                leaf = ("raise", type(e).__name__, str(e)[:120])
+        finally:
+            _CUR.pop()
+        path = list(ctx.path)
+        if len(path) < len(prefix):
+            raise TraceUnsupported("the code does not ask the same questions when it is run again (non-deterministic trace)")
+        results.append((path, leaf))
+        if len(results) > MAX_PATHS:
+            raise TraceUnsupported(f"more than {MAX_PATHS} paths")
+        for i in range(len(prefix), len(path)):
+            stack.append(path[:i] + [(path[i][0], False)])
+    return _build(results, 0)
+
+
+def _build(results, depth):
+    if len(results) == 1 and len(results[0][0]) == depth:
+        return ("leaf", results[0][1])
+    atoms = {r[0][depth][0] if len(r[0]) > depth else None for r in results}
+    if len(atoms) != 1 or None in atoms:
+        raise TraceUnsupported("non-deterministic trace (paths disagree on the next question)")
+    atom = atoms.pop()
+    t = _build([r for r in results if r[0][depth][1]], depth + 1)
+    f = _build([r for r in results if not r[0][depth][1]], depth + 1)
+    if t == f:
+        return t
+    return ("if", atom, t, f)
+
+
+def _map_leaves(tree, fn):
+    if tree[0] == "leaf":
+        return ("leaf", fn(tree[1]))
+    t, f = _map_leaves(tree[2], fn), _map_leaves(tree[3], fn)
+    if t == f:
+        return t
+    return ("if", tree[1], t, f)
+
+
+def _leaves(tree):
+    if tree[0] == "leaf":
+        return [tree[1]]
+    return _leaves(tree[2]) + _leaves(tree[3])
+
+
+# ---------------------------------------------------------------------------------------
+# traced values
+
+def _expr_of(v):
+    return v.e if isinstance(v, TNum) else _const(v)
+
+
+def _is_numberlike(v) -> bool:
+    return isinstance(v, (TNum, int, float, _np.integer, _np.floating)) and not isinstance(v, (bool, _np.bool_))
+
+
+def _result(e, *operands):
+    return TArr(e) if any(isinstance(o, TArr) for o in operands) else TNum(e)
+
+
+def _binary(op, a, b):
+    if op == "id":
+        raise TranslationError("internal")
+    return _result(_mk(op, _expr_of(a), _expr_of(b)), a, b)
+
+
+def _unary(name, a):
+    if name == "neg":
+        return _result(("neg", _expr_of(a)), a)
+    if name == "pos":
+        return _result(_expr_of(a), a)
+    if name == "square":
+        return _result(_mk("mul", _expr_of(a), _expr_of(a)), a)
+    if name == "reciprocal":
+        return _result(("div", _const(1), _expr_of(a)), a)
+    return _result(("fn", name, _expr_of(a)), a)
+
+
+def _clip(a, lo, hi):
+    if lo is None and hi is None:
+        raise TraceUnsupported("clip without bounds")
+    e = _expr_of(a)
+    if lo is None:
+        return _result(_mk("min", e, _expr_of(hi)), a, hi)
+    if hi is None:
+        return _result(_mk("max", e, _expr_of(lo)), a, lo)
+    return _result(("clip", e, _expr_of(lo), _expr_of(hi)), a, lo, hi)
+
+
+def _store(out, res):
+    """the `out=` protocol: write the result into a traced array and return it"""
+    if isinstance(out, tuple):
+        if len(out) != 1:
+            raise TraceUnsupported("several out= arrays")
+        out = out[0]
+    if out is None:
+        return res
+    if not isinstance(out, TArr):
+        raise TraceUnsupported(f"out= is not a traced array ({type(out).__name__})")
+    out.e = res.e
+    return out
+
+
+class TBool:
+    """a comparison of traced parameters; asking for its truth value is a decision point"""
+    __slots__ = ("atom", "neg")
+
+    def __init__(self, atom, neg=False):
+        self.atom, self.neg = atom, neg
+
+    def __bool__(self):
+        return _decide(self.atom) != self.neg
+
+    def __invert__(self):
+        return TBool(self.atom, not self.neg)
+
+    def __and__(self, other):
+        return bool(self) and bool(other)
+
+    __rand__ = __and__
+
+    def __or__(self, other):
+        return bool(self) or bool(other)
+
+    __ror__ = __or__
+
+    def __repr__(self):
+        return ("not " if self.neg else "") + _show(self.atom)
+
+
+def _compare(kind, a, b):
+    """Python comparison `a <kind> b` on floats (NaN compares False except !=)"""
+    if not (_is_numberlike(a) and _is_numberlike(b)):
+        return NotImplemented
+    ea, eb = _expr_of(a), _expr_of(b)
+    if _depends_x(ea) or _depends_x(eb):
+        raise TraceUnsupported("comparison that depends on the traced element (data-dependent branch / mask)")
+    if kind == "eq":
+        return TBool(_mk_feq(ea, eb))
+    if kind == "ne":
+        return TBool(_mk_feq(ea, eb), True)
+    if kind == "lt":
+        return TBool(("lt", ea, eb))
+    if kind == "le":
+        return TBool(("le", ea, eb))
+    if kind == "gt":
+        return TBool(("lt", eb, ea))
+    return TBool(("le", eb, ea))
+
+
+def _mk_feq(a, b):
+    a, b = sorted((a, b), key=_key)
+    return ("feq", a, b)
+
+
+class TNum:
+    """an immutable traced number (a dataclass field or something computed from fields)"""
+    __slots__ = ("e",)
+    __array_priority__ = 1.0e6
+    __hash__ = None  # type: ignore[assignment]
+
+    def __init__(self, e):
+        self.e = e
+
+    # -- arithmetic
+    def __add__(self, o):
+        return _binary("add", self, o) if _is_numberlike(o) else NotImplemented
+
+    def __radd__(self, o):
+        return _binary("add", o, self) if _is_numberlike(o) else NotImplemented
+
+    def __sub__(self, o):
+        return _binary("sub", self, o) if _is_numberlike(o) else NotImplemented
+
+    def __rsub__(self, o):
+        return _binary("sub", o, self) if _is_numberlike(o) else NotImplemented
+
+    def __mul__(self, o):
+        return _binary("mul", self, o) if _is_numberlike(o) else NotImplemented
+
+    def __rmul__(self, o):
+        return _binary("mul", o, self) if _is_numberlike(o) else NotImplemented
+
+    def __truediv__(self, o):
+        return _binary("div", self, o) if _is_numberlike(o) else NotImplemented
+
+    def __rtruediv__(self, o):
+        return _binary("div", o, self) if _is_numberlike(o) else NotImplemented
+
+    def __pow__(self, o, mod=None):
+        if mod is not None or not _is_numberlike(o):
+            return NotImplemented
+        return _binary("pow", self, o)
+
+    def __rpow__(self, o):
+        return _binary("pow", o, self) if _is_numberlike(o) else NotImplemented
+
+    def __neg__(self):
+        return _unary("neg", self)
+
+    def __pos__(self):
+        return _unary("pos", self)
+
+    def __abs__(self):
+        return _unary("abs", self)
+
+    # -- comparisons
+    def __eq__(self, o):
+        return _compare("eq", self, o)
+
+    def __ne__(self, o):
+        return _compare("ne", self, o)
+
+    def __lt__(self, o):
+        return _compare("lt", self, o)
+
+    def __le__(self, o):
+        return _compare("le", self, o)
+
+    def __gt__(self, o):
+        return _compare("gt", self, o)
+
+    def __ge__(self, o):
+        return _compare("ge", self, o)
+
+    def __bool__(self):
+        # truthiness of a Python float: x != 0
+        if _depends_x(self.e):
+            raise TraceUnsupported("truth value of the traced element (data-dependent branch)")
+        return not _decide(_mk_feq(self.e, _const(0)))
+
+    # -- what cannot be followed
+    def __float__(self):
+        raise TraceUnsupported("conversion of a traced value to a Python float (float() / math.*)")
+
+    def __int__(self):
+        raise TraceUnsupported("conversion of a traced value to a Python int")
+
+    __index__ = __int__
+
+    def __array__(self, *a, **k):
+        raise TraceUnsupported("conversion of a traced value to a real ndarray")
+
+    def __iter__(self):
+        raise TraceUnsupported("iteration over a traced value")
+
+    def __len__(self):
+        raise TraceUnsupported("len() of a traced value")
+
+    def __getitem__(self, i):
+        raise TraceUnsupported("indexing a traced value")
+
+    def __setitem__(self, i, v):
+        raise TraceUnsupported("item assignment into a traced value")
+
+    def __repr__(self):
+        return f"<traced {_show(self.e)}>"
+
+    def __format__(self, spec):
+        return repr(self)
+
+    # -- NumPy protocols: real ufuncs / functions called on traced values come here
+    def __array_ufunc__(self, ufunc, method, *inputs, out=None, **kwargs):
+        if method != "__call__":
+            raise TraceUnsupported(f"ufunc method {ufunc.__name__}.{method}")
+        where = kwargs.pop("where", True)
+        if where is not True:
+            raise TraceUnsupported("ufunc where=")
+        for k in ("casting", "order", "subok"):
+            kwargs.pop(k, None)
+        if kwargs.pop("dtype", None) not in (None, float, _np.float64):
+            raise TraceUnsupported("ufunc dtype=")
+        if kwargs:
+            raise TraceUnsupported(f"ufunc keyword {sorted(kwargs)}")
+        spec = UFUNCS.get(ufunc)
+        if spec is None:
+            raise TraceUnsupported(f"ufunc np.{ufunc.__name__}")
+        for v in inputs:
+            if not _is_numberlike(v):
+                raise TraceUnsupported(f"ufunc operand of type {type(v).__name__}")
+        kind, name = spec
+        if kind == 1 and len(inputs) == 1:
+            res = _unary(name, inputs[0])
+        elif kind == 2 and len(inputs) == 2:
+            res = _binary(name, inputs[0], inputs[1])
+        else:
+            raise TraceUnsupported(f"ufunc np.{ufunc.__name__} with {len(inputs)} operands")
+        return _store(out, res)
+
+    def __array_function__(self, func, types, args, kwargs):
+        h = FUNCTIONS.get(func)
+        if h is None:
+            raise TraceUnsupported(f"NumPy function np.{getattr(func, '__name__', func)}")
+        return h(*args, **kwargs)
+
+
+class TArr(TNum):
+    """a mutable traced array (one element of it): `out=` and the in-place operators write into it"""
+    __slots__ = ()
+
+    def _inplace(self, op, o):
+        if not _is_numberlike(o):
+            return NotImplemented
+        self.e = _mk(op, self.e, _expr_of(o))
+        return self
+
+    def __iadd__(self, o):
+        return self._inplace("add", o)
+
+    def __isub__(self, o):
+        return self._inplace("sub", o)
+
+    def __imul__(self, o):
+        return self._inplace("mul", o)
+
+    def __itruediv__(self, o):
+        return self._inplace("div", o)
+
+    def __ipow__(self, o):
+        return self._inplace("pow", o)
+
+    # ndarray-style methods
+    def clip(self, min=None, max=None, out=None, **kwargs):  # noqa: A002
+        if kwargs:
+            raise TraceUnsupported(f"clip keyword {sorted(kwargs)}")
+        return _store(out, _clip(self, min, max))
+
+    def copy(self, order="C"):
+        return TArr(self.e)
+
+    def __copy__(self):
+        return TArr(self.e)
+
+    def __deepcopy__(self, memo):
+        return TArr(self.e)
+
+    def astype(self, dtype, *a, copy=True, **k):
+        if _np.dtype(dtype) != _np.dtype("float64"):
+            raise TraceUnsupported(f"astype({dtype})")
+        return TArr(self.e) if copy else self
+
+    @property
+    def dtype(self):
+        return _np.dtype("float64")
+
+    def __getattr__(self, name):
+        if name.startswith("__") and name.endswith("__"):
+            raise AttributeError(name)
+        raise TraceUnsupported(f"ndarray attribute .{name} on the traced array")
+
+
+def _fn_clip(a, a_min=None, a_max=None, out=None, *, min=None, max=None, **kwargs):  # noqa: A002
+    if kwargs:
+        raise TraceUnsupported(f"np.clip keyword {sorted(kwargs)}")
+    lo = a_min if a_min is not None else min
+    hi = a_max if a_max is not None else max
+    return _store(out, _clip(a, lo, hi))
+
+
+def _fn_copy(a, *args, **kwargs):
+    return TArr(_expr_of(a))
+
+
+UFUNCS = {
+    _np.add: (2, "add"), _np.subtract: (2, "sub"), _np.multiply: (2, "mul"), _np.true_divide: (2, "div"),
+    _np.power: (2, "pow"), _np.float_power: (2, "pow"), _np.minimum: (2, "min"), _np.maximum: (2, "max"),
+    _np.log: (1, "log"), _np.exp: (1, "exp"), _np.sinh: (1, "sinh"), _np.arcsinh: (1, "asinh"), _np.sqrt: (1, "sqrt"),
+    _np.absolute: (1, "abs"), _np.fabs: (1, "abs"), _np.negative: (1, "neg"), _np.positive: (1, "pos"),
+    _np.square: (1, "square"), _np.reciprocal: (1, "reciprocal"),
+}
+FUNCTIONS = {_np.clip: _fn_clip, _np.copy: _fn_copy}
+
+
+def _as_array(obj, same_object: bool):
+    if isinstance(obj, TArr) and same_object:
+        return obj
+    return TArr(obj.e)
+
+
+def _check_dtype(kwargs):
+    dt = kwargs.pop("dtype", None)
+    if dt is not None and _np.dtype(dt) != _np.dtype("float64"):
+        raise TraceUnsupported(f"array creation with dtype={dt}")
+    for k in ("order", "subok", "ndmin", "like"):
+        kwargs.pop(k, None)
+
+
+class NpProxy:
+    """the module's `np` while it is traced: array-creation functions accept traced values, everything
+    else is real NumPy (ufuncs and dispatched functions reach the traced values through the protocols)"""
+
+    def __init__(self, real):
+        object.__setattr__(self, "_real", real)
+
+    def __getattr__(self, name):
+        real = getattr(object.__getattribute__(self, "_real"), name)
+        if name == "array":
+            def array(obj, *args, **kwargs):
+                if not isinstance(obj, TNum):
+                    return real(obj, *args, **kwargs)
+                if args:
+                    kwargs["dtype"] = args[0]
+                    if len(args) > 1:
+                        raise TraceUnsupported("np.array positional arguments")
+                copy = kwargs.pop("copy", True)
+                if isinstance(copy, (TNum, TBool)):
+                    raise TraceUnsupported("np.array(copy=<traced>)")
+                _check_dtype(kwargs)
+                if kwargs:
+                    raise TraceUnsupported(f"np.array keyword {sorted(kwargs)}")
+                return _as_array(obj, same_object=(copy is None or copy is False))
+            return array
+        if name in ("asarray", "asanyarray", "ascontiguousarray"):
+            def asarray(obj, *args, **kwargs):
+                if not isinstance(obj, TNum):
+                    return real(obj, *args, **kwargs)
+                if args:
+                    kwargs["dtype"] = args[0]
+                if kwargs.pop("copy", None) is True:
+                    _check_dtype(kwargs)
+                    return _as_array(obj, same_object=False)
+                _check_dtype(kwargs)
+                if kwargs:
+                    raise TraceUnsupported(f"np.{name} keyword {sorted(kwargs)}")
+                return _as_array(obj, same_object=True)
+            return asarray
+        return real
+
+
+numbers.Real.register(TNum)
+
+
+# ---------------------------------------------------------------------------------------
+# loading and tracing the classes
+
+def load_module(path: str):
+    """a private module object made from the source file (relative imports resolve inside quantem)"""
+    name = "quantem.core.visualization._qverif_traced_custom_normalizations"
+    try:
+        spec = importlib.util.spec_from_file_location(name, path)
+        mod = importlib.util.module_from_spec(spec)
+        sys.modules[name] = mod
+        try:
+            spec.loader.exec_module(mod)
+        finally:
+            sys.modules.pop(name, None)
+    except TranslationError:
+        raise
+    except BaseException as e:  # SyntaxError, ImportError, anything the module body raises
+        raise TranslationError(f"cannot load {path}: {type(e).__name__}: {e}")
+    # every module global bound to NumPy itself becomes the proxy (functions look `np` up at call time)
+    for k, v in list(vars(mod).items()):
+        if v is _np:
+            setattr(mod, k, NpProxy(_np))
+        elif v is math:
+            setattr(mod, k, _MathProxy())
+    return mod
+
+
+class _MathProxy:
+    """`math.*` on traced values (real `math` on numbers)"""
+    _UN = {"log": "log", "exp": "exp", "sinh": "sinh", "asinh": "asinh", "sqrt": "sqrt", "fabs": "abs"}
+
+    def __getattr__(self, name):
+        real = getattr(math, name)
+        if name in self._UN:
+            def f(x, *rest):
+                if isinstance(x, TNum) and not rest:
+                    return _unary(self._UN[name], x)
+                return real(x, *rest)
+            return f
+        if name == "pow":
+            def p(a, b):
+                if isinstance(a, TNum) or isinstance(b, TNum):
+                    return _binary("pow", a, b)
+                return real(a, b)
+            return p
+        return real
+
+
+def stretch_classes(mod):
+    out = {}
+    for k, v in vars(mod).items():
+        if isinstance(v, type) and k.endswith("Stretch") and v.__module__ == mod.__name__:
+            if not dataclasses.is_dataclass(v):
+                raise TranslationError(f"{k}: expected a dataclass")
+            out[k] = v
+    return out
+
+
+def _fields(cls):
+    return [f.name for f in dataclasses.fields(cls)]
+
+
+def _symbolic_args(cls):
+    return [TNum(("p", f)) for f in _fields(cls)]
+
+
+def trace_valid(cls):
+    """decision tree with leaves True (construction succeeds) / False (ValueError)"""
+    def run():
+        cls(*_symbolic_args(cls))
+        return True
+    tree = explore(run)
+
+    def leaf(v):
+        if v[0] == "value":
+            return True
+        if v[1] == "ValueError":
+            return False
+        raise TranslationError(f"{cls.__name__}: construction raises {v[1]} ({v[2]}) on some parameters — only ValueError is modelled")
+    return _map_leaves(tree, leaf)
+
+
+def _symbolic_instance(cls):
+    """an instance whose fields are symbols, built without running the validation"""
+    obj = object.__new__(cls)
+    for f in _fields(cls):
+        object.__setattr__(obj, f, TNum(("p", f)))
+    return obj
+
+
+def trace_call(cls):
+    """decision tree whose leaves are the expression `__call__` returns for the element `values`"""
+    def run():
+        obj = _symbolic_instance(cls)
+        r = obj(TArr(("x",)))
+        if not isinstance(r, TNum):
+            raise TranslationError(f"{cls.__name__}.__call__ returned a {type(r).__name__}, not the traced array")
+        return r.e
+    tree = explore(run)
+
+    def leaf(v):
+        if v[0] != "value":
+            raise TranslationError(f"{cls.__name__}.__call__ raises {v[1]} ({v[2]}) on some path — the model of `call` is a total function")
+        return v[1]
+    return _map_leaves(tree, leaf)
+
+
+def trace_inverse(cls, classes, valid_trees):
+    """(target class name, [decision tree per target field]) of the object the `inverse` attribute returns.
+    Building the inverse may raise ValueError exactly where the target's own validation rejects the fields."""
+    by_type = {v: k for k, v in classes.items()}
+
+    def run():
+        inv = _symbolic_instance(cls).inverse
+        tname = by_type.get(type(inv))
+        if tname is None:
+            raise TranslationError(f"{cls.__name__}.inverse is a {type(inv).__name__}, not an instance of a stretch class")
+        vals = []
+        for f in _fields(type(inv)):
+            v = getattr(inv, f)
+            e = _expr_of(v)
+            if _depends_x(e):
+                raise TranslationError("internal: inverse field depends on the element")
+            vals.append(e)
+        return (tname, tuple(vals))
+    tree = explore(run)
+    ok = [v for v in _leaves(tree) if v[0] == "value"]
+    bad = [v for v in _leaves(tree) if v[0] != "value" and v[1] != "ValueError"]
+    if bad:
+        raise TranslationError(f"{cls.__name__}.inverse raises {bad[0][1]} ({bad[0][2]}) on some path — only ValueError is modelled")
+    if not ok:
+        raise TranslationError(f"{cls.__name__}.inverse raises on every path")
+    targets = {v[1][0] for v in ok}
+    if len(targets) != 1:
+        raise TranslationError(f"{cls.__name__}.inverse returns different classes on different paths: {sorted(targets)}")
+    target = targets.pop()
+    nfields = len(_fields(classes[target]))
+
+    # the field map: the tree with the raising leaves removed (a raising branch takes its sibling's value)
+    def strip(t):
+        if t[0] == "leaf":
+            return t if t[1][0] == "value" else None
+        a, b = strip(t[2]), strip(t[3])
+        if a is None:
+            return b
+        if b is None:
+            return a
+        return a if a == b else ("if", t[1], a, b)
+    fmap = strip(tree)
+    field_trees = [_map_leaves(fmap, lambda v, i=i: v[1][1][i]) for i in range(nfields)]
+
+    # where building the inverse raises must be where the target's validation rejects these fields
+    raises_tree = _map_leaves(tree, lambda v: v[0] == "value")
+
+    def expected(ft):
+        # substitute the field expressions into the target's validation tree (only for a branch-free field map)
+        if any(t[0] != "leaf" for t in ft):
+            return None
+        env = {f: t[1] for f, t in zip(_fields(classes[target]), ft)}
+
+        def sub(t):
+            if t[0] == "leaf":
+                return t
+            atom = _subst(t[1], env)
+            if atom[1][0] == "c" and atom[2][0] == "c":      # a comparison of two constants is decided by Python itself
+                p, q = atom[1][1], atom[2][1]
+                return sub(t[2] if {"feq": p == q, "le": p <= q, "lt": p < q}[atom[0]] else t[3])
+            a, b = sub(t[2]), sub(t[3])
+            return a if a == b else ("if", atom, a, b)
+        return sub(valid_trees[target])
+    exp = expected(field_trees)
+    if exp is not None and exp != raises_tree:
+        raise TranslationError(f"{cls.__name__}.inverse raises ValueError under other conditions than {target}'s own validation of the fields it is given")
+    if exp is None and any(v[0] != "value" for v in _leaves(tree)):
+        raise TranslationError(f"{cls.__name__}.inverse: branching field map together with raising paths is outside the tracer")
+    return target, field_trees
+
+
+def trace_defaults(cls):
+    try:
+        inst = cls()
+    except Exception as e:  # noqa
+        raise TranslationError(f"{cls.__name__}() cannot be built with its defaults: {type(e).__name__}: {e}")
+    out = []
+    for f in _fields(cls):
+        v = getattr(inst, f)
+        if isinstance(v, TNum):
+            raise TranslationError("internal: traced default")
+        out.append(_const(v))
+    return out
+
+
+# ---------------------------------------------------------------------------------------
+# Lean text
+
+def _bool_tree(t) -> str:
+    if t[0] == "leaf":
+        return "true" if t[1] else "false"
+    c = _show(t[1])
+    a, b = t[2], t[3]
+    if a == ("leaf", False) and b == ("leaf", True):
+        return f"(!{c})"
+    if a == ("leaf", True) and b == ("leaf", False):
+        return c
+    if a == ("leaf", False):
+        return f"((!{c}) && {_bool_tree(b)})"
+    if b == ("leaf", False):
+        return f"({c} && {_bool_tree(a)})"
+    if a == ("leaf", True):
+        return f"({c} || {_bool_tree(b)})"
+    if b == ("leaf", True):
+        return f"((!{c}) || {_bool_tree(a)})"
+    return f"(if {c} then {_bool_tree(a)} else {_bool_tree(b)})"
+
+
+def _expr_tree(t, indent="  ") -> list[str]:
+    if t[0] == "leaf":
+        return [indent + _show(t[1])]
+    return [f"{indent}if {_show(t[1])} then"] + _expr_tree(t[2], indent + "  ") + [f"{indent}else"] + _expr_tree(t[3], indent + "  ")
+
+
+def _expr_tree_inline(t) -> str:
+    if t[0] == "leaf":
+        return _show(t[1])
+    return f"(if {_show(t[1])} then {_expr_tree_inline(t[2])} else {_expr_tree_inline(t[3])})"
 
 
 PRELUDE = """/-
 GENERATED by harness/translator/stretch2lean.py from
   src/quantem/core/visualization/custom_normalizations.py  (classes *Stretch)
-on every `./check C20` run — DO NOT EDIT.  Element-wise reading of the in-place
-`np.*(values, …, out=values)` pipelines as function composition over `[Num R]`.
+on every `./check C20` run — DO NOT EDIT.  The classes are EXECUTED on symbolic values (one array
+element `values`, the dataclass fields `self.<field>`); what they compute is written here over
+`[Num R]`, one `if` per comparison of parameters, commutative operands in a fixed order.
 `copy=` (aliasing of the caller's buffer) is outside this model.
 -/
 import QuantemModel.Core.Num
@@ -284,48 +900,38 @@ def fne {R : Type} [Num R] (a b : R) : Bool := !(feq a b)
 """
 
 
-def translate(src: str) -> str:
-    try:
-        tree = ast.parse(src)
-    except SyntaxError as e:
-        raise TranslationError(f"source does not parse: {e}")
-    found: dict[str, ClassTranslator] = {}
-    order: list[str] = []
-    for node in tree.body:
-        if isinstance(node, ast.ClassDef) and node.name.endswith("Stretch"):
-            if not any((isinstance(d, ast.Name) and d.id == "dataclass") or
-                       (isinstance(d, ast.Call) and isinstance(d.func, ast.Name) and d.func.id == "dataclass")
-                       for d in node.decorator_list):
-                raise TranslationError(f"{node.name}: expected a @dataclass")
-            found[node.name] = ClassTranslator(node)
-            order.append(node.name)
-    got = {n: found[n].field_names for n in order}
-    if got != EXPECTED:
+def translate_module(mod) -> str:
+    classes = stretch_classes(mod)
+    order = list(classes)
+    got = {n: _fields(classes[n]) for n in order}
+    if got != EXPECTED or order != list(EXPECTED):
         raise TranslationError(f"stretch classes/fields changed: expected {EXPECTED}, found {got}")
+    valid = {n: trace_valid(classes[n]) for n in order}
+    call = {n: trace_call(classes[n]) for n in order}
+    inverse = {n: trace_inverse(classes[n], classes, valid) for n in order}
+    defaults = {n: trace_defaults(classes[n]) for n in order}
 
     out = [PRELUDE]
     for n in order:
-        ct = found[n]
         out.append(f"structure {n} (R : Type) where")
-        for f in ct.field_names:
+        for f in got[n]:
             out.append(f"  {f} : R")
         out.append("")
     for n in order:
-        ct = found[n]
         out.append(f"namespace {n}")
         out.append("variable {R : Type} [Num R]")
-        dflt = ", ".join(f"{f} := {ct.expr(v, allow_self=False)}" for f, v in ct.fields)
-        out.append(f"/-- dataclass defaults -/")
+        dflt = ", ".join(f"{f} := {_show(v)}" for f, v in zip(got[n], defaults[n]))
+        out.append("/-- dataclass defaults -/")
         out.append(f"def default : {n} R := {{ {dflt} }}")
-        out.append(f"/-- `__post_init__` does not raise -/")
-        out.append(f"def valid (self : {n} R) : Bool := {ct.valid()}")
-        out.append(f"/-- `__call__` on one element -/")
+        out.append("/-- construction does not raise -/")
+        out.append(f"def valid (self : {n} R) : Bool := {_bool_tree(valid[n])}")
+        out.append("/-- `__call__` on one element -/")
         out.append(f"def call (self : {n} R) (values : R) : R :=")
-        for ln in ct.call_body():
-            out.append(f"  {ln}")
-        target, vals = ct.inverse(found)
-        out.append(f"/-- the `inverse` property -/")
-        out.append(f"def inverse (self : {n} R) : {target} R := {{ " + ", ".join(f"{f} := {v}" for f, v in vals) + " }")
+        out.extend(_expr_tree(call[n]))
+        target, ftrees = inverse[n]
+        out.append("/-- the `inverse` property -/")
+        out.append(f"def inverse (self : {n} R) : {target} R := {{ "
+                   + ", ".join(f"{f} := {_expr_tree_inline(t)}" for f, t in zip(got[target], ftrees)) + " }")
         out.append(f"end {n}")
         out.append("")
 
@@ -335,17 +941,17 @@ def translate(src: str) -> str:
     out.append("def classNames : List String := [" + ", ".join(f'"{n}"' for n in order) + "]")
     out.append("def fieldNames : String → List String")
     for n in order:
-        out.append(f'  | "{n}" => [' + ", ".join(f'"{f}"' for f in found[n].field_names) + "]")
+        out.append(f'  | "{n}" => [' + ", ".join(f'"{f}"' for f in got[n]) + "]")
     out.append("  | _ => []")
 
     def pat(n):
-        return "[" + ", ".join(found[n].field_names) + "]"
+        return "[" + ", ".join(got[n]) + "]"
 
     def mk(n):
-        return "{ " + ", ".join(f"{f} := {f}" for f in found[n].field_names) + f" : {n} R }}"
+        return "{ " + ", ".join(f"{f} := {f}" for f in got[n]) + f" : {n} R }}"
 
     def lst(n, var):
-        return "[" + ", ".join(f"{var}.{f}" for f in found[n].field_names) + "]"
+        return "[" + ", ".join(f"{var}.{f}" for f in got[n]) + "]"
 
     out.append("def defaultsByName : String → Option (List R)")
     for n in order:
@@ -361,7 +967,7 @@ def translate(src: str) -> str:
     out.append("  | _, _, _ => none")
     out.append("def inverseByName : String → List R → Option (String × List R)")
     for n in order:
-        target, _ = found[n].inverse(found)
+        target = inverse[n][0]
         out.append(f'  | "{n}", {pat(n)} => some (let i := ({mk(n)}).inverse; ("{target}", {lst(target, "i")}))')
     out.append("  | _, _ => none")
     out.append("end Dispatch")
@@ -370,15 +976,27 @@ def translate(src: str) -> str:
     return "\n".join(out) + "\n"
 
 
-def regenerate(out_path: str = OUT_PATH) -> bool:
-    """translate the current source; rewrite the Lean file only if its text changes.
-    Returns True if the file changed.  Raises TranslationError (file left untouched)."""
-    p = source_path()
+def translate_file(path: str) -> str:
+    if not os.path.exists(path):
+        raise TranslationError(f"cannot read {path}")
+    old_limit = sys.getrecursionlimit()
     try:
-        src = open(p, encoding="utf-8").read()
-    except OSError as e:
-        raise TranslationError(f"cannot read {p}: {e}")
-    text = translate(src)
+        mod = load_module(path)
+        return translate_module(mod)
+    except TranslationError:
+        raise
+    except BaseException as e:  # the tracer itself must never crash the check
+        if isinstance(e, (KeyboardInterrupt, SystemExit)):
+            raise
+        raise TranslationError(f"tracer failed: {type(e).__name__}: {e}")
+    finally:
+        sys.setrecursionlimit(old_limit)
+
+
+def regenerate(out_path: str = OUT_PATH) -> bool:
+    """trace the current source; rewrite the Lean file only if its text changes.
+    Returns True if the file changed.  Raises TranslationError (file left untouched)."""
+    text = translate_file(source_path())
     old = None
     if os.path.exists(out_path):
         old = open(out_path, encoding="utf-8").read()
@@ -393,10 +1011,12 @@ def regenerate(out_path: str = OUT_PATH) -> bool:
 
 
 if __name__ == "__main__":
-    import sys
     try:
-        changed = regenerate()
-        print(("rewrote " if changed else "unchanged ") + OUT_PATH)
+        if len(sys.argv) > 1 and sys.argv[1] == "--print":
+            sys.stdout.write(translate_file(source_path()))
+        else:
+            changed = regenerate()
+            print(("rewrote " if changed else "unchanged ") + OUT_PATH)
     except TranslationError as e:
         print("TranslationError:", e)
         sys.exit(1)
